@@ -311,6 +311,7 @@ func c10Wiring(c *Ctx) {
 	const rule = "WIRING"
 	c10AlwaysSync(c)
 	c10DeleteCallbackUnconditional(c)
+	c10LiveInstall(c)
 	// removal passes the empty snapshot
 	if f := c.fn(rule, "control", "controlPlaneCore.BatchRemoveDomainRouting"); f != nil {
 		ok := false
